@@ -41,17 +41,17 @@ const (
 var optionalGates = []string{gStored, gPrecancel, gPresock, gPrelock, gReset, gHook}
 
 type actor struct {
-	name   string
-	gid    int64
-	reader bool
-	point  string // gate where parked, "" when not parked
-	rel    chan struct{}
-	done   bool   // caller: Call returned; reader: goroutine left startReadAndHandle
-	result string // caller: ok | closed | wfail | other<code>
-	kind   string // caller: echo | hold
-	released bool // hold call whose server handler has been let go: its reply is on the way
+	name         string
+	gid          int64
+	reader       bool
+	point        string // gate where parked, "" when not parked
+	rel          chan struct{}
+	done         bool   // caller: Call returned; reader: goroutine left startReadAndHandle
+	result       string // caller: ok | closed | wfail | other<code>
+	kind         string // caller: echo | hold
+	released     bool   // hold call whose server handler has been let go: its reply is on the way
 	justReleased bool
-	reread bool   // released from disc.read: a further arrival there is the CAS loop, not parked
+	reread       bool // released from disc.read: a further arrival there is the CAS loop, not parked
 }
 
 type roundRec struct {
@@ -79,10 +79,10 @@ type world struct {
 	// wrapp: wrapper conn + the session's ProtoFunc again | ren: a wrapper whose LocalAddr /
 	// RemoteAddr are renamed (as a websocket conn does) | ws: the shipped websocket mixer
 	// (client plugin upgrades the connection through ModifySocket, http server side)
-	mod      string
-	modFirst bool   // the socket-modifying plugin runs before (true) / after the verdict plugin
-	firstID  string // Session.ID() right after Dial, before any SetID
-	tcpAccepts int  // ws: connections accepted by the harness-owned TCP listener
+	mod        string
+	modFirst   bool   // the socket-modifying plugin runs before (true) / after the verdict plugin
+	firstID    string // Session.ID() right after Dial, before any SetID
+	tcpAccepts int    // ws: connections accepted by the harness-owned TCP listener
 
 	park   map[string]bool
 	byGid  map[int64]*actor
